@@ -112,7 +112,7 @@ func runC12(c *Ctx) {
 			p.HashValue = []byte{}
 		}
 		p.PreimageContentType = mon.Pick[any](r, nil, nil, "text/plain", uint64(50), uint8(1), int64(60), int(7), int64(-3), 2.5, []byte("x"), true)
-		p.Location = mon.Pick(r, "", "", "https://example.com/a", "loc")
+		p.Location = mon.Pick(r, "", "", "", "https://example.com/a", "loc", "https://bucket.example/50%off.bin", "s3://my bucket/key", "://", "file:///tmp/x", "urn:uuid:6e8bc430-9c3a-11d9-9669-0800200c9a66", "http://[::1]:80/%zz", "h\u00e9llo://\u65e5\u672c", " leading-space")
 		if i%11 == 3 && rawMode > 2 {
 			// the caller's protected map already holds exactly the governed values (and no alg)
 			h.Protected = cose.ProtectedHeader{}
